@@ -4,7 +4,7 @@ import vlib, report, parsecheck, families, lr1, kernel, c01_table
 def units(tier, seed):
     d = {g.name: g for g in families.g_dir()}
     if tier == 'quick':
-        sel = [(d['d1'], [3]), (d['d2'], [4]), (d['lrece'], [3]), (d['lalr'], [3]), (d['nullrun'], [3]), (d['mutleft'], [3]), (d['chain'], [3]), (d['trail'], [3]), (d['nulfirst'], [3]), (d['interl'], [3])]
+        sel = [(d['d1'], [3]), (d['d2'], [4]), (d['lrece'], [3]), (d['lalr'], [3]), (d['nullrun'], [3]), (d['mutleft'], [3]), (d['chain'], [3]), (d['trail'], [3]), (d['nulfirst'], [3]), (d['interl'], [3]), (d['lrnul'], [3]), (d['firstmut'], [3])]
         sel += [(g, [3]) for g in families.g_rand(seed, 3)]
     else:
         sel = [(g, [1, 2, 3, 4, 5]) for g in d.values() if g.name not in families.KNOWN_DEFECT_UNITS] + [(g, [2, 3, 4, 5]) for g in families.g_rand(seed, 24)]
